@@ -36,6 +36,10 @@ CLAIMED = {
  'C07': ('proptest-generated boundary-straddling diffs x tagged side-by-side option sets; panels split at the gutters; geometry invariants + fragment reassembly oracle',
          'Exploration: for every generated case the decoded side-by-side rows must respect the configured width, a fixed right-panel column, side exclusivity of removed/added styling, lossless reassembly of every wrapped line per side, truncation only after all allowed rows (with mark and prefix), and row sharing of paired lines at maximal distance.',
          'Trusted: terminal model and unicode-width tables; line numbers on with {nm} left / {np} right formats; ansi fill method not covered.', '3/C07'),
+
+ 'C06': ('exhaustive enumeration of all string pairs up to length 4 over a 4-symbol alphabet + proptest-generated realistic sub-hunks; cell classes read by tag; edit-validity / pairing oracle',
+         'Exploration with an exhaustive small scope: every ordered pair of strings of length <= 4 over {a,b,blank,;} (116 281 pairs at the default distance, a third of them at distances 0 and 1) plus thousands of random sub-hunks must satisfy: un-emphasised text equal on both lines of a pair, no emphasis on unpaired/unchanged/identical lines, single contiguous stretch for single-run edits, balanced pairing, i-th-with-i-th at distance 1, whitespace-only differences at distance 0.',
+         'Trusted: terminal model; paired <=> painted with emph/non-emph styles (tagged family); whitespace-error cells count as emphasised.', '3/C06'),
 }
 hook_commits = subprocess.check_output(['git','-C','/repo','log','--format=%H','--grep','^verif hook:'],text=True).split()
 checks = []
